@@ -35,6 +35,8 @@ func slotFiles(dir string, kind int) map[string]string {
 			dir + "/wire_t.go": "//go:build wireinject && t\n// +build wireinject,t\n\npackage " + pkg + "\n\nimport \"github.com/google/wire\"\n\nfunc InitTagged() (*Svc, func(), error) {\n\tpanic(wire.Build(NewCfg, NewSvcE))\n}\n",
 		}
 	case kS2:
+		// this kind spells the import of wire as a raw string literal
+		hdr := strings.Replace(hdr, "\"github.com/google/wire\"", "`github.com/google/wire`", 1)
 		return map[string]string{
 			dir + "/foo.go":  foo,
 			dir + "/wire.go": hdr + "func InitSvc() (*Svc, func(), error) {\n\tpanic(wire.Build(NewCfg, NewSvcE))\n}\n\nfunc InitCfg() Cfg {\n\tpanic(wire.Build(NewCfg))\n}\n",
@@ -126,10 +128,23 @@ var (
 		{"header-is-directory", []string{"-header_file", "hdrdir"}, "", "", false},
 		{"prefix", []string{"-output_file_prefix", "p_"}, "", "p_", true},
 		{"tags", []string{"-tags", "t"}, "tags", "", true},
+		// explored in the first two steps of a history only (see Ops)
+		{"header-big", []string{"-header_file", "bighdr.txt"}, "bighdr", "", true},
+		{"tags-comma", []string{"-tags", "t,u"}, "", "", false}, // the go command refuses comma-separated tag lists
 	}
 )
 
 const c17Header = "// Copyright header line.\n// Second line.\n\n"
+
+// c17BigHeader: a licence text of about 1.7 KB as line comments (longer than any look-ahead window)
+var c17BigHeader = func() string {
+	var sb strings.Builder
+	for i := 0; i < 24; i++ {
+		fmt.Fprintf(&sb, "// Licence line %02d: redistribution and use in source and binary forms ...\n", i)
+	}
+	sb.WriteString("\n")
+	return sb.String()
+}()
 
 func checkC17(c *h.Check) {
 	thorough := c.Tier == "thorough"
@@ -153,11 +168,13 @@ func checkC17(c *h.Check) {
 		d := c.S.Dir("fresh")
 		h.WriteFiles(d, h.ModuleFiles(ex.ModPath))
 		h.WriteFiles(d, slotFiles(dirs[slot], kind))
-		h.WriteFiles(d, map[string]string{"hdr.txt": c17Header})
+		h.WriteFiles(d, map[string]string{"hdr.txt": c17Header, "bighdr.txt": c17BigHeader})
 		argv := []string{c.S.Wire, "gen"}
 		switch key {
 		case "hdr":
 			argv = append(argv, "-header_file", "hdr.txt")
+		case "bighdr":
+			argv = append(argv, "-header_file", "bighdr.txt")
 		case "tags":
 			argv = append(argv, "-tags", "t")
 		}
@@ -186,7 +203,7 @@ func checkC17(c *h.Check) {
 				total *= nprior
 			}
 			for pv := 0; pv < total; pv++ {
-				t := h.Tree{"hdr.txt": c17Header, "hdrdir/keep.txt": "a directory, not a header file\n"}
+				t := h.Tree{"hdr.txt": c17Header, "bighdr.txt": c17BigHeader, "hdrdir/keep.txt": "a directory, not a header file\n"}
 				var pn []string
 				x := pv
 				skip := false
@@ -246,12 +263,16 @@ func checkC17(c *h.Check) {
 	rec(0, nil)
 	ex.Ops = func(s *h.FSState) []h.FSOp {
 		var ops []h.FSOp
+		late := func(o c17Opt) bool { return (o.name == "header-big" || o.name == "tags-comma") && s.Depth > 1 }
 		for _, o := range c17GenOpts {
+			if late(o) {
+				continue
+			}
 			ops = append(ops, h.FSOp{Name: "gen:" + o.name, Argv: append(append([]string{"gen"}, o.args...), "./...")})
 		}
 		ops = append(ops, h.FSOp{Name: "gen:default-command", Argv: []string{"./..."}})
 		for _, o := range c17GenOpts {
-			if o.prefix != "" {
+			if o.prefix != "" || late(o) {
 				continue
 			}
 			ops = append(ops, h.FSOp{Name: "diff:" + o.name, Argv: append(append([]string{"diff"}, o.args...), "./...")})
@@ -442,7 +463,7 @@ func checkC17(c *h.Check) {
 	c.Coverage["initial_states"] = len(initial)
 	c.Coverage["evaluations"] = ex.Transitions
 	c.Coverage["distinct_nontrivial"] = ex.States
-	c.Coverage["rule"] = fmt.Sprintf("explicit-state BFS (states = module trees by hash) from every assignment of package kinds {S1 accepted with a tag-dependent injector file, S2 accepted, F analysis fails, N no injectors but a blank import, FT fails only under -tags t} to %d package slots x prior output content chosen per slot {absent, identical, stale, identical plus trailing bytes, truncated prefix}; transitions: gen x {no option, -header_file readable, -header_file missing, -header_file naming a directory, -output_file_prefix, -tags, default-command form}, diff x {none, header, header missing, tags}, check and show x {none, tags}; gen/diff/check with patterns naming a missing or an empty directory; chained to depth %d. Reference contract evaluated on every transition: exit status rules, exact file footprint, outputs equal to generating each package alone from scratch, read-only commands leave the tree hash unchanged, diff 0/1/2.", nslots, depth)
+	c.Coverage["rule"] = fmt.Sprintf("explicit-state BFS (states = module trees by hash) from every assignment of package kinds {S1 accepted with a tag-dependent injector file, S2 accepted, F analysis fails, N no injectors but a blank import, FT fails only under -tags t} to %d package slots x prior output content chosen per slot {absent, identical, stale, identical plus trailing bytes, truncated prefix}; transitions: gen x {no option, -header_file readable, -header_file missing, -header_file naming a directory, -output_file_prefix, -tags, default-command form; in the first two steps also a 1.7 KB header and a comma-separated -tags list, which the go command refuses}, diff x {none, header, header missing, tags}, check and show x {none, tags}; gen/diff/check with patterns naming a missing or an empty directory; chained to depth %d. Reference contract evaluated on every transition: exit status rules, exact file footprint, outputs equal to generating each package alone from scratch, read-only commands leave the tree hash unchanged, diff 0/1/2.", nslots, depth)
 	c.Samples = append(c.Samples, map[string]interface{}{"initial": initial[len(initial)/2].Path, "ops": []string{"gen:header", "diff:none", "check:tags"}})
 	c.Assumptions = append(c.Assumptions, "a failing package is one whose Wire analysis fails; packages that do not type-check abort the whole load by design and are outside the alphabet", "reference output = the same binary generating the package alone from scratch (differential)")
 	if !ex.Closed {
